@@ -3,10 +3,10 @@ set_option linter.unusedVariables false
 /-
   C03 — term codecs (executable; core-only imports, linked into drv_c03).
 
-  Writers follow rdflib's code: `str.replace` chains whose (pattern, replacement) pairs are
-  REGENERATED from the source on every run (`Tables.lean`, produced by `harness/c03.py:TABLES`):
+  Writers: per-character maps REGENERATED from rdflib's behaviour on every run (`Tables.lean`, produced by
+  `harness/c03.py:TABLES` = harness/c03tables.py, which also checks that the writers are such maps):
     * `ntQuoteEncode`      = `rdflib/plugins/serializers/nt.py:_quote_encode`
-    * `quoteEncode`        = `rdflib/term.py:Literal._quote_encode` (short and long `"""` branch)
+    * `quoteEncode`        = `rdflib/term.py:Literal._quote_encode` (short form; long `"""` form = map + quote rules)
   Readers are the LANGUAGE (the W3C grammars), not rdflib's parsers:
     * `decodeShort q`      = STRING_LITERAL_QUOTE / STRING_LITERAL_SINGLE_QUOTE  (N-Triples §7, Turtle §6.5 [22],[23])
     * `decodeLong q`       = STRING_LITERAL_LONG_QUOTE / …_LONG_SINGLE_QUOTE      (Turtle [24],[25])
@@ -23,73 +23,53 @@ def sq : Char := '\''
 def lf : Char := '\n'
 def cr : Char := '\r'
 
-/-! ### Python `str.replace` for the two pattern shapes the writers use -/
+/-! ### Writers: per-character maps regenerated from rdflib's behaviour (Tables.lean)
 
-/-- `s.replace(c, w)` for a one-character pattern -/
-def replaceChar (c : Char) (w : Str) (s : Str) : Str :=
-  s.flatMap (fun x => if x = c then w else [x])
+  `harness/c03tables.py` probes the N-Triples and Turtle writers on every character of a probe alphabet and
+  checks (behaviourally, on two-character contexts) that they ARE per-character maps — and that the Turtle long
+  form is such a map plus the two context rules for quotes built into `encLong` below.  How the implementation
+  computes the map (chained `str.replace`, `str.translate`, …) does not matter. -/
 
-/-- `s.replace(abc, w)` for a three-character pattern (leftmost, non-overlapping); `skip` = characters of
-    a match just replaced that are still to be stepped over (keeps the recursion structural) -/
-def replace3Aux (a b c : Char) (w : Str) : Nat → Str → Str
-  | _, [] => []
-  | skip + 1, _ :: t => replace3Aux a b c w skip t
-  | 0, x :: t =>
-    match t with
-    | y :: z :: _ =>
-      if x = a ∧ y = b ∧ z = c then w ++ replace3Aux a b c w 2 t else x :: replace3Aux a b c w 0 t
-    | _ => x :: replace3Aux a b c w 0 t
+/-- first entry for `c` -/
+def lookupEsc : List (Char × Str) → Char → Option Str
+  | [], _ => none
+  | (k, w) :: rest, c => if k = c then some w else lookupEsc rest c
 
-def replace3 (a b c : Char) (w : Str) (s : Str) : Str := replace3Aux a b c w 0 s
-
-/-- `s.replace(pat, rep)`; patterns of other lengths do not occur in the writers
-    (a regenerated table with another shape leaves the text unchanged, which the
-    correspondence run then reports). -/
-def replaceStr (pat rep : Str) (s : Str) : Str :=
-  match pat with
-  | [c] => replaceChar c rep s
-  | [a, b, c] => replace3 a b c rep s
-  | _ => s
-
-/-- a chain `s.replace(p₁,r₁).replace(p₂,r₂)…` applied left to right -/
-def applyChain (chain : List (Str × Str)) (s : Str) : Str :=
-  chain.foldl (fun acc pr => replaceStr pr.1 pr.2 acc) s
-
-/-! ### Writers -/
+/-- what the writer puts for character `c`: its table entry, or the character itself -/
+def escOf (m : List (Char × Str)) (c : Char) : Str :=
+  match lookupEsc m c with
+  | some w => w
+  | none => [c]
 
 /-- `nt._quote_encode` -/
 def ntQuoteEncode (s : Str) : Str :=
-  dq :: applyChain Tables.ntChain s ++ [dq]
+  dq :: s.flatMap (escOf Tables.ntMap) ++ [dq]
 
-/-- `'"""' in s` -/
-def hasTriple : Str → Bool
-  | [] => false
-  | x :: t =>
-    (match t with
-     | y :: z :: _ => x == dq && y == dq && z == dq
-     | _ => false) || hasTriple t
+def esc3 : Str := [bs, dq, bs, dq, bs, dq]
 
-/-- number of leading backslashes (used on the reversed text: `len(body) - len(body.rstrip("\\"))`) -/
-def leadingBs : Str → Nat
-  | [] => 0
-  | c :: t => if c = bs then leadingBs t + 1 else 0
+/-- one source character of the long form: a quote stays raw unless it is the last character of the text
+    (`"` -> `\"`); anything else goes through the map -/
+def pieceL (m : List (Char × Str)) (x : Char) (last : Bool) : Str :=
+  if x = dq then (if last then [bs, dq] else [dq]) else escOf m x
 
-/-- the final-quote rule of the long branch:
-    `if encoded[-1] == '"': body = encoded[:-1]; if (#trailing backslashes of body) % 2 == 0: encoded = body + '\\"'` -/
-def fixFinalQuote (e : Str) : Str :=
-  match e.reverse with
-  | [] => e
-  | q :: rb => if q = dq ∧ leadingBs rb % 2 = 0 then rb.reverse ++ [bs, dq] else e
+/-- the long form between the triple quotes, in one pass: `"""` -> `\"\"\"` (leftmost first), a final raw
+    quote escaped, every other character through the map.  (`skip` = characters of a `"""` just written that
+    are still to be stepped over; keeps the recursion structural.) -/
+def encLongAux (m : List (Char × Str)) : Nat → Str → Str
+  | _, [] => []
+  | skip + 1, _ :: t => encLongAux m skip t
+  | 0, x :: t =>
+    match t with
+    | y :: z :: _ =>
+      if x = dq ∧ y = dq ∧ z = dq then esc3 ++ encLongAux m 2 t else pieceL m x false ++ encLongAux m 0 t
+    | _ => pieceL m x t.isEmpty ++ encLongAux m 0 t
 
-/-- `Literal._quote_encode` -/
+def encLong (m : List (Char × Str)) (s : Str) : Str := encLongAux m 0 s
+
+/-- `Literal._quote_encode`: long form when the text contains a newline, else the short form -/
 def quoteEncode (s : Str) : Str :=
-  if lf ∈ s then
-    let e1 := replaceStr Tables.longStep1.1 Tables.longStep1.2 s
-    let e2 := if hasTriple s then replaceStr Tables.longStep2.1 Tables.longStep2.2 e1 else e1
-    let e3 := fixFinalQuote e2
-    [dq, dq, dq] ++ replaceStr Tables.longStep3.1 Tables.longStep3.2 e3 ++ [dq, dq, dq]
-  else
-    dq :: applyChain Tables.shortChain s ++ [dq]
+  if lf ∈ s then [dq, dq, dq] ++ encLong Tables.longMap s ++ [dq, dq, dq]
+  else dq :: s.flatMap (escOf Tables.shortMap) ++ [dq]
 
 /-! ### Readers: the W3C string grammars -/
 
